@@ -472,6 +472,19 @@ class FactBase:
         pre = f.name + "::{closure#"
         return [g for g in self.all(f.crate) if g.name.startswith(pre)]
 
+    def by_call(self, t, crate="lib"):
+        """the local function a call terminator resolves to, by its raw (unnormalised, unique) path — normalised names collide for
+        impls that differ only in their generic arguments (`From<A> for T` / `From<B> for T`)"""
+        fn = t.get("fn") if isinstance(t, dict) else None
+        raw = (fn or {}).get("resolved_raw") or (fn or {}).get("raw")
+        if not raw:
+            return None
+        if not hasattr(self, "_by_raw"):
+            self._by_raw = {}
+            for f in self.all():
+                self._by_raw.setdefault((f.crate, f.raw), f)
+        return self._by_raw.get((crate, raw))
+
     def by_path(self, name, crate="lib"):
         for f in self.by_name.get(name, []):
             if f.crate == crate:
